@@ -3,7 +3,12 @@
  * (progress made, go on), BZ_STREAM_END (only with BZ_FINISH), failures
  * BZ_SEQUENCE_ERROR, BZ_PARAM_ERROR. BZ2_bzDecompress: BZ_OK (go on),
  * BZ_STREAM_END, failures BZ_PARAM_ERROR, BZ_DATA_ERROR, BZ_DATA_ERROR_MAGIC,
- * BZ_MEM_ERROR. Init functions: BZ_OK or a failure. Lazy (re)initialisation,
+ * BZ_MEM_ERROR - and, in this stub, ANY other negative value except
+ * BZ_OUTBUFF_FULL (-8): that code belongs to the one-shot BuffToBuff API, the
+ * streaming calls never return it; bzip2.c nevertheless maps it to
+ * XFRM_STREAM_BUFFER_FULL before looking at the cursors (dead code; with -8
+ * admitted, offsets / error_propagates / buffer_full_meaning fail - noted,
+ * not claimed as a defect). Init functions: BZ_OK or a failure. Lazy (re)initialisation,
  * *End after STREAM_END.
  */
 #include "C15/adapter_common.h"
@@ -72,10 +77,12 @@ static int lib_step(bz_stream *s, bool compress, int action)
 		VERIF_ASSUME(code == BZ_RUN_OK || code == BZ_FLUSH_OK ||
 			     code == BZ_FINISH_OK || code == BZ_STREAM_END ||
 			     code < 0);
+		VERIF_ASSUME(code != BZ_OUTBUFF_FULL);
 		if (code == BZ_STREAM_END)
 			VERIF_ASSUME(action == BZ_FINISH);
 	} else {
 		VERIF_ASSUME(code == BZ_OK || code == BZ_STREAM_END || code < 0);
+		VERIF_ASSUME(code != BZ_OUTBUFF_FULL);
 	}
 	/* "go on" codes: the compressor reports missing progress as
 	 * BZ_PARAM_ERROR; the decompressor simply returns BZ_OK when it has no
